@@ -11,6 +11,8 @@ CONSTANTS
   IdentityDepKey = TRUE
   VolatileUniq = FALSE
   FreshModule = TRUE
+  Words = {1}
+  FullStropKey = TRUE
 VIEW View
 INVARIANT EmitBad
 CHECK_DEADLOCK FALSE
